@@ -3,6 +3,7 @@
 package c14
 
 import (
+	"encoding/binary"
 	"encoding/json"
 	"fmt"
 	"io"
@@ -421,6 +422,120 @@ func runGrowth(rec *vcommon.Rec, sc *scenario) {
 	}
 }
 
+// runForwarded: growth over logical connections that the client serves from its listener's forward address (no upstream
+// involved). Each connection moves keyed data both ways; then one side shuts its sending side down, the other sees
+// end-of-stream and closes, and the first side's read must end, too. Sockets, goroutines and copy loops must not grow.
+func runForwarded(rec *vcommon.Rec, sc *scenario) {
+	sig := "growth:" + sc.Carrier + ":" + sc.Mode
+	t, err := e2e.NewTarget("FWD", "tcp", "", true)
+	if err != nil {
+		rec.Inconclusive(sig+":fixture: "+err.Error(), sc)
+		return
+	}
+	defer t.Close()
+	t.Banner = e2e.C16Banner("FWD")
+	cl, err := e2e.NewC16Client([]string{"tcp://127.0.0.1:1"}, t.URL(), false)
+	if err != nil {
+		rec.Violation(sig+":setup-failed", sc, err.Error())
+		return
+	}
+	defer cl.Close()
+	type halfCloser interface{ CloseWrite() error }
+	one := func(i int) *e2e.Failure {
+		app, err := cl.Dial()
+		if err != nil {
+			return &e2e.Failure{Kind: "dial-failed", Info: map[string]interface{}{"err": err.Error()}}
+		}
+		defer app.Close()
+		tag := uint64(sc.Seed)<<20 + uint64(i)
+		var hdr, banner [8]byte
+		binary.BigEndian.PutUint64(hdr[:], tag)
+		if _, err := app.Write(hdr[:]); err != nil {
+			return &e2e.Failure{Kind: "write-failed", Info: map[string]interface{}{"err": err.Error()}}
+		}
+		tgt, o := t.NextTagged(tag)
+		if o != e2e.Done {
+			return &e2e.Failure{Kind: "forward-target-never-connected", Inconclusive: o == e2e.Inconclusive}
+		}
+		defer tgt.Close()
+		got := e2e.Go(func() { io.ReadFull(app, banner[:]) })
+		if o := e2e.Wait(got); o != e2e.Done {
+			return &e2e.Failure{Kind: "banner-never-arrived", Inconclusive: o == e2e.Inconclusive}
+		}
+		if f := e2e.Duplex(app, tgt, &e2e.Stream{Key: tag*4 + 1, Len: 3000}, &e2e.Stream{Key: tag*4 + 2, Len: 3000}, "c2t", "t2c", nil); f != nil {
+			return f
+		}
+		first, second, dir := app, tgt, "c2t"
+		if sc.Mode == "forwarded-target-first" {
+			first, second, dir = tgt, app, "t2c"
+		}
+		hc, ok := first.(halfCloser)
+		if !ok {
+			return &e2e.Failure{Kind: "harness: no CloseWrite on this socket"}
+		}
+		hc.CloseWrite()
+		if f := e2e.ExpectEOF(second, dir); f != nil {
+			return f
+		}
+		second.Close()
+		// the side that finished first waits for the end of the connection
+		var rerr error
+		ended := e2e.Go(func() {
+			b := make([]byte, 256)
+			for rerr == nil {
+				_, rerr = first.Read(b)
+			}
+		})
+		switch e2e.Wait(ended) {
+		case e2e.Stalled:
+			return &e2e.Failure{Kind: "side-that-finished-first-never-sees-the-end", Info: map[string]interface{}{"connection_number": i, "goroutines": e2e.Clip(e2e.Stacks(), 30000)}}
+		case e2e.Inconclusive:
+			return &e2e.Failure{Kind: "busy", Inconclusive: true}
+		}
+		e2e.Bump(1)
+		return nil
+	}
+	batch := func(from, to int) *e2e.Failure {
+		for i := from; i < to; i++ {
+			if f := one(i); f != nil {
+				return f
+			}
+		}
+		return nil
+	}
+	if f := batch(0, 8); f != nil {
+		report(rec, sc, sig+":warmup", f)
+		return
+	}
+	if f := batch(8, 8+sc.N1); f != nil {
+		report(rec, sc, sig+":batch1", f)
+		return
+	}
+	p1, q1 := quiesce(func(p probe) bool { return p.Pipes == 0 }, 30*time.Second)
+	if f := batch(8+sc.N1, 8+sc.N2); f != nil {
+		report(rec, sc, sig+":batch2", f)
+		return
+	}
+	p2, q2 := quiesce(func(p probe) bool { return p.Pipes == 0 }, 30*time.Second)
+	rec.Case(fmt.Sprintf("%v", *sc), true)
+	rec.Stat("logical_connections_finished", int64(8+sc.N2))
+	rec.Stat("forwarded_connections_finished", int64(8+sc.N2))
+	rec.Seen("scenario", sc.Kind+"/"+sc.Carrier+"/"+sc.Mode)
+	rec.Sample(map[string]interface{}{"scenario": sc, "after_n1": describe(p1), "after_n2": describe(p2), "quiescent": []bool{q1, q2}})
+	const slack = 4
+	for c, n := range p2.G {
+		if d := n - p1.G[c]; d > slack {
+			rec.Violation(fmt.Sprintf("%s:goroutines-grow:%s", sig, c), sc, map[string]interface{}{"after_n1": describe(p1), "after_n2": describe(p2), "n1": sc.N1, "n2": sc.N2})
+		}
+	}
+	if d := p2.FDs - p1.FDs; d > slack {
+		rec.Violation(sig+":descriptors-grow", sc, map[string]interface{}{"after_n1": describe(p1), "after_n2": describe(p2), "n1": sc.N1, "n2": sc.N2})
+	}
+	if p2.Pipes-p1.Pipes > slack {
+		rec.Violation(sig+":copy-loops-grow", sc, map[string]interface{}{"after_n1": describe(p1), "after_n2": describe(p2)})
+	}
+}
+
 func report(rec *vcommon.Rec, sc *scenario, sig string, f *e2e.Failure) {
 	if f.Inconclusive {
 		rec.Inconclusive(sig+":"+f.Kind, sc)
@@ -628,6 +743,9 @@ func scenarios(rec *vcommon.Rec) []*scenario {
 			add(scenario{Kind: "growth", Carrier: c, Mode: m, N1: n1, N2: n2})
 		}
 	}
+	// connections served from the listener's forward address (no carrier at all)
+	add(scenario{Kind: "growth", Carrier: "forward-address", Mode: "forwarded-app-first", N1: n1, N2: n2})
+	add(scenario{Kind: "growth", Carrier: "forward-address", Mode: "forwarded-target-first", N1: n1, N2: n2})
 	for _, c := range carriers {
 		if c == "stdio" {
 			continue
@@ -652,7 +770,9 @@ func TestVerifC14(t *testing.T) {
 	defer rec.Close()
 	run := func(sc *scenario) {
 		rec.Mark(sc)
-		if sc.Kind == "growth" {
+		if sc.Kind == "growth" && strings.HasPrefix(sc.Mode, "forwarded-") {
+			runForwarded(rec, sc)
+		} else if sc.Kind == "growth" {
 			runGrowth(rec, sc)
 		} else {
 			runEnd(rec, sc)
